@@ -513,6 +513,28 @@ theorem framed_roundtrip (pre key sig msgb : Bytes) (m gt : Nat) (fs : FmtList) 
   simp [beEnc_length, hr0]
   rw [if_pos (by omega)]
 
+/-- an UNSIGNED frame — prefix, message id, global time, message; no key field, no signature — decodes (`_ez_unpack_noauth`,
+    `lazy_wrapper_unsigned`) to the global time and the message's values -/
+theorem framed_unsigned_roundtrip (pre msgb : Bytes) (m gt : Nat) (fs : FmtList) (vs : ValList)
+    (hpre : pre.length = 22) (hgt : gt < 256 ^ 8) (hwf : wfList fs vs = true) (hp : packList fs vs = .ok msgb) :
+    ezUnpackNoAuth [distFmts, fs] ((pre ++ [UInt8.ofNat m]) ++ (beEnc 8 gt ++ msgb))
+      = .ok [.cons (.atom (.nat gt)) .nil, vs] := by
+  have hA : (pre ++ [UInt8.ofNat m]).length = 23 := by simp [hpre]
+  have hdistp : packList distFmts (.cons (.atom (.nat gt)) .nil) = .ok (beEnc 8 gt) := by
+    simp [distFmts, packList, pack, packFields, packField, packUint, hgt, bind, Except.bind]
+  have hd := rtList distFmts (.cons (.atom (.nat gt)) .nil) (beEnc 8 gt) (pre ++ [UInt8.ofNat m]) msgb hdistp
+    (by simp [distFmts, wfList, wf, wfFields, wfField]) (by intro h; simp [distFmts, endsInRawL, endsInRaw] at h)
+  have hm := rtList fs vs msgb ((pre ++ [UInt8.ofNat m]) ++ beEnc 8 gt) [] hp hwf (fun _ => rfl)
+  rw [hA] at hd
+  have hl2 : ((pre ++ [UInt8.ofNat m]) ++ beEnc 8 gt).length = 23 + (beEnc 8 gt).length := by simp [hpre]; omega
+  rw [hl2] at hm
+  have e1 : (pre ++ [UInt8.ofNat m]) ++ (beEnc 8 gt ++ msgb) = ((pre ++ [UInt8.ofNat m]) ++ beEnc 8 gt) ++ (msgb ++ []) := by simp
+  unfold ezUnpackNoAuth
+  simp only [unpackPayloadsAt, bind, Except.bind, hd]
+  rw [e1, hm]
+  simp [beEnc_length, hpre]
+  rw [if_pos (by omega)]
+
 /-- non-vacuity: a 3-byte key, global time 5, an `H` message, a 2-byte signature (evaluation of the model) -/
 example : Frame.ezUnpackAuth 2 [Frame.distFmts, .cons (.struct [.uint 2]) .nil]
       (List.replicate 22 7 ++ [9] ++ ([0, 3] ++ [1, 2, 3]) ++ [0, 0, 0, 0, 0, 0, 0, 5] ++ [1, 2] ++ [0xEE, 0xEF])
